@@ -3,7 +3,9 @@ package harness
 import (
 	"fmt"
 	"hash/fnv"
+	"os"
 	"sort"
+	"strconv"
 	"strings"
 	"sync/atomic"
 	"testing/synctest"
@@ -12,6 +14,8 @@ import (
 
 	"simrt"
 )
+
+var dumpAt, _ = strconv.Atoi(os.Getenv("VERIF_DUMP_AT"))
 
 //go:linkname simSelectSeed runtime.simSelectSeed
 func simSelectSeed(s uint64)
@@ -74,6 +78,7 @@ type Sim struct {
 	TraceCap  int
 	Pairs     map[string]struct{}
 	lastSite  string
+	LastAt    map[string]string // goroutine name → site it was last released from
 	Viol      *Violation
 	SelSeed   uint64
 	Stuck     string // non-empty: the run could not be driven (harness trouble), not a verdict
@@ -84,7 +89,7 @@ func NewSim(tape *Tape, rng *RNG) *Sim {
 	r := simrt.Begin()
 	r.RegisterSelf("sched")
 	return &Sim{R: r, Tape: tape, RNG: rng, Start: time.Now(), MaxSteps: 200000, TraceCap: 6000, Heartbeat: &heartbeat,
-		Pairs: map[string]struct{}{}, hash: 1469598103934665603, ilHash: 1469598103934665603,
+		Pairs: map[string]struct{}{}, LastAt: map[string]string{}, hash: 1469598103934665603, ilHash: 1469598103934665603,
 		Strat: Strategy{Stay: 0.7, EnvBias: 0.3}}
 }
 
@@ -217,6 +222,11 @@ func (s *Sim) Step(w World, allowTime bool) bool {
 	}
 	c := cands[k]
 	s.Steps++
+	if dumpAt > 0 && s.Steps == dumpAt {
+		buf := make([]byte, 1<<20)
+		n := runtimeStack(buf)
+		fmt.Fprintf(os.Stderr, "==== stacks at step %d, fake time %v ====\n%s\n", s.Steps, s.Now(), buf[:n])
+	}
 	// reseed the select shuffle so that arm choice is a function of the tape position only
 	simSelectSeed(Mix(s.SelSeed, uint64(s.Steps))|1)
 	switch {
@@ -237,6 +247,7 @@ func (s *Sim) Step(w World, allowTime bool) bool {
 		s.note("run "+p.G.Name+"@"+p.Site, sw)
 		s.last = p.G
 		s.lastSite = p.Site
+		s.LastAt[p.G.Name] = p.Site
 		s.R.Release(p)
 	default:
 		a := env[c.e]
@@ -291,8 +302,14 @@ func (s *Sim) advance(d time.Duration) bool {
 		t.Stop()
 		s.parked = append(s.parked, p)
 		s.R.Hit(p.Site)
+		// A real timer never fires early and practically never exactly on time. The fake clock stops
+		// exactly at the deadline, which turns code like `if now.After(deadline)` + `Reset(Until(deadline))`
+		// into an endless loop that no real clock would produce: let a microsecond pass before anybody runs.
+		time.Sleep(time.Microsecond)
 		return true
 	case <-t.C:
+		// a timer of the system may be due at this very instant too: same lateness
+		time.Sleep(time.Microsecond)
 		return false
 	}
 }
@@ -345,7 +362,22 @@ func (s *Sim) ParkedOn(name string) string {
 			return p.Site + "[" + p.Kind.String() + "]"
 		}
 	}
-	return "blocked"
+	for _, g := range s.R.Goroutines() {
+		if g.Name == name && g.At != "" {
+			return "blocked at " + g.At
+		}
+	}
+	return "blocked after " + s.LastAt[name]
+}
+
+// siteFunc reduces a site id "file:line:col(func)" to "file(func)", which survives unrelated edits.
+func siteFunc(site string) string {
+	i := strings.Index(site, ":")
+	j := strings.Index(site, "(")
+	if i < 0 || j < 0 {
+		return site
+	}
+	return site[:i] + site[j:]
 }
 
 func shortName(n string) string {
